@@ -27,7 +27,7 @@ ASSUMPTIONS = [
     "object key columns hold mutually comparable values only; strings containing U+0000 are not generated",
     "strings starting with U+FFFF (the library's in-band sentinel for missing strings) form a tagged class",
 ]
-REACH = {"quick": {"nrow:0": 50, "key:lstr": 100, "key:ustr": 100, "key:str": 300, "multi-key-mixed-dir": 200, "key-all-missing": 50, "desc-nonnumeric": 300, "tag:big": 10}}
+REACH = {"quick": {"nrow:0": 50, "key:lstr": 100, "key:ustr": 100, "key:str": 300, "multi-key-mixed-dir": 200, "key-all-missing": 50, "desc-nonnumeric": 300, "tag:big": 10, "after-inplace-edit": 500}}
 
 KEY_KINDS = ["bool", "int", "float", "str", "str", "lstr", "ustr", "date", "datetime", "obool", "ostr"]
 
@@ -72,7 +72,13 @@ def generate(rng, tier):
         rng.shuffle(order)
         spec = [spec[0]] + order
     rng.shuffle(keys)
-    return {"spec": spec, "keys": keys, "tags": sorted(tags)}
+    case = {"spec": spec, "keys": keys, "tags": sorted(tags)}
+    if nrow and rng.random() < 0.25:
+        col = keys[0][0]
+        kind = [s_[1] for s_ in spec if s_[0] == col][0]
+        if kind in ("str", "int", "float", "date", "bool"):
+            case["edit"] = (col, rng.randrange(nrow), rng.choice(gen.pool(rng, kind, 0.0)))
+    return case
 
 def _cmp_cells(a, b, dir, na_last):
     an, bn = a == canon.NA, b == canon.NA
@@ -84,7 +90,19 @@ def _cmp_cells(a, b, dir, na_last):
     return c if dir > 0 else -c
 
 def execute(case):
+    r = _execute(case, None)
+    ed = case.get("edit")
+    if r["violations"] or not ed:
+        return r
+    # history clause: sort once, assign one key cell in place on the same frame object, sort again
+    r2 = _execute(case, ed)
+    r["classes"] = r["classes"] + ["after-inplace-edit"]
+    r["violations"] = [{"key": "after-inplace-edit:" + x["key"], "msg": "after sorting once and assigning one key cell in place: " + x["msg"]} for x in r2["violations"]]
+    return r
+
+def _execute(case, edit):
     import dataiter as di
+    import numpy as np
     spec, keys = case["spec"], case["keys"]
     nrow = len(spec[0][2])
     kind_of = {s[0]: s[1] for s in spec}
@@ -100,6 +118,14 @@ def execute(case):
     if any(d < 0 and k not in ("int", "float") for k, d in zip(kkinds, dirs)):
         res.cls("desc-nonnumeric")
     df = gen.build_frame(spec)
+    if edit is not None:
+        col, pos, newv = edit
+        try:
+            df.sort(**dict(keys)); df.unique(col); df.split(col)
+        except Exception:
+            pass
+        arr = np.asarray(dict.__getitem__(df, col))
+        arr[pos % len(arr)] = gen.np_column(kind_of[col], [newv])[0]
     pre = canon.frame_cells(df)
     names = list(pre)
     for k, _ in keys:
